@@ -854,8 +854,10 @@ def format_summary(obj: model.Documentable) -> Tag:
     with source.docstring_linker.switch_context(None):
         # ParserErrors will likely be reported by the full docstring as well,
         # so don't spam the log, pass report=False.
+        # The summary that turns out to be broken is the one of obj: the source of the docstring
+        # (the class of a variable documented by a field, an overridden method) keeps its own.
         stan = safe_to_stan(parsed_doc, source.docstring_linker, source, report=False,
-                fallback=format_summary_fallback)
+                fallback=lambda errs, doc, _: format_summary_fallback(errs, doc, obj))
 
     return stan
 
